@@ -53,6 +53,10 @@ class GDataConverter(XMLSchemaConverter):
         else:
             return name.replace(':', '$')
 
+    def map_attributes(self, attributes: Any) -> Any:
+        for name, value in super().map_attributes(attributes):
+            yield name if name.startswith('{') else name.replace(':', '$'), value
+
     def unmap_qname(self, qname: str,
                     name_table: Container[str | None] | None = None,
                     xmlns: list[tuple[str, str]] | None = None) -> str:
